@@ -382,5 +382,10 @@ class RecursiveFormatter(Formatter):
         # If is its own copy, don't memoize.
         if new is not obj:
             memo[obj_id] = new
+            # memo is by id. Keep obj itself alive for as long as the memo
+            # lives (like copy.deepcopy does), else a temporary that an
+            # iterable creates on the fly could die & hand its id to the next
+            # temporary, which would then get this result instead of its own.
+            memo.setdefault(id(memo), []).append(obj)
 
         return new
